@@ -429,7 +429,7 @@ theorem clamp8_range (d : Int) : -128 ≤ clamp8 d ∧ clamp8 d ≤ 127 := by
   · omega
   · split <;> omega
 
-/-- the range check of `add_pitch_node` (87e2b57): when it does not throw, the step is an `int16_t` -/
+/-- the range check of `add_pitch_node` (f788cbf): when it does not throw, the step is an `int16_t` -/
 theorem chunkDelta_checked (d : Int)
     (h : ¬ ((decide (d < Tables.mdsdrv_pitch_step_min) || decide (d > Tables.mdsdrv_pitch_step_max)) = true)) :
     -32768 ≤ d ∧ d ≤ 32767 := by
